@@ -40,6 +40,16 @@ type Prog struct {
 	graphs  map[ast.Node]*Graph
 
 	ssaState *ssaState
+
+	Inline *InlineReport // what the normalisation by inlining did (nil when Load was used directly)
+}
+
+// ReadAbs returns the content of a source file by absolute name, taking the overlay into account.
+func (p *Prog) ReadAbs(abs string) ([]byte, error) {
+	if b, ok := p.Overlay[abs]; ok {
+		return b, nil
+	}
+	return os.ReadFile(abs)
 }
 
 // Func is a declared function or method of a product package.
